@@ -14,10 +14,50 @@ claim("C19",
       "(boys_func) are pure; libcint.py excluded; class-hierarchy resolution of method calls by name.",
       "DESIGN.md 2.3, 3 (C19)")
 
+
+claim("C18",
+      "regex-AST and record-layout lints + effect analysis (custom syntax-tree rules)",
+      "Rules over the parsed regular expressions (re._parser) and the record layouts of parse_nwchem, parse_gbs, make_contractions "
+      "and from_pyscf: split stride = capture groups + 1 with every record field consumed once from the first match (P1); the text "
+      "before the first element is dropped unconditionally and the element pattern can match at offset 0 of its subject (P2); "
+      "number tokens admit 0-9.DE+- and every float() argument is Fortran-D normalised (P3); the constant-folded shell-letter table "
+      "is s..k -> 0..7, consulted case-insensitively (P4); producers, the consumer loop and the shell constructor agree on "
+      "(angmom, exps, coeffs) and SP column i goes with letter i (P5); shells are built atom-major with that atom's row and index "
+      "(P6); each shell receives the next coordinate type in construction order (P7); coord_types is used through the Sequence "
+      "protocol only (P8); from_pyscf unpacks the PySCF record layout; EFFECTS shows that none of the five import functions mutates "
+      "an argument. These hold for all inputs because they are facts about the patterns and the dataflow, not about sampled files. "
+      "Round-trip of arbitrary generated files is not decided.",
+      "Trusted: python re semantics, the NWChem/Gaussian94/PySCF format facts stated in the evidence assumptions, EFFECTS API table.",
+      "DESIGN.md 2.7, 3 (C18)")
+
+claim("C14",
+      "backward slices + path conditions + computer-algebra normal form of the result expression",
+      "On electrostatic_potential: the condition that zeroes a nuclear term is, in comparison normal form, `distance < "
+      "threshold_dist` with the distance proven (sympy) to be sqrt(sum((point-nucleus)^2)) and its backward slice free of "
+      "nuclear_charges (D1); every size comparison of the density matrix is against transform.shape[0] on the transform path and "
+      "against the AO count only without one (D2, path conditions); the returned expression equals +sum Z/d (thresholded) - sum "
+      "P*I as a symbolic identity given point_charge_integral(q) = -q*I (SIGN); basis, points, transform are forwarded and the "
+      "probe charges are -1 (FWD). Holds for all charges, thresholds and transformations because nothing is sampled. The values "
+      "of the integrals are C03's.",
+      "Trusted: elementwise abstraction (broadcast adapters dropped, np.sum linear), sympy simplify, C03 for the integral values.",
+      "DESIGN.md 2.4, 2.6, 3 (C14)")
+
+claim("C20",
+      "closed-form extraction + computer algebra; comparison normal form; dispatch/keyword-forwarding rules",
+      "is_integral_screened's cutoff is extracted as an expression and proven equal to the documented sqrt(-(a_min+b_min)/(a_min "
+      "b_min) ln tol) with the minimum taken over the right shell's exponents; the decision is the strict `distance > cutoff` with "
+      "the Euclidean centre distance; None is decided before any use and bool is rejected; the screened block's four axes are the "
+      "segment/component counts of the respective shells; kept blocks have no dependence on the tolerance; overlap_integral "
+      "forwards tol_screen identically on its four assembly branches (dispatch predicates checked). Monotonicity in the tolerance "
+      "follows from the formula (derivative sign recorded). The magnitude bound on removed elements is numerical and not decided.",
+      "Trusted: sympy; assembly forwards **kwargs (C09/A1); a block depends only on its own shells (C11/G1).",
+      "DESIGN.md 2.4, 2.6, 3 (C20)")
+
+na("C10", "quantifies over the numerical values of the transformation matrices (harmonicity, orthonormality, phases for every l<=10); "
+          "no clause is visible in the shape of the code - deciding it means computing the matrices, which is not static analysis")
+na("C17", "positive semi-definiteness and Schwarz inequalities are numerical consequences of exact integrals; no structural clause exists")
+
 _pending = "check not built yet in this round (design in DESIGN.md section 3); not claimed until its rules run"
 for _p in ["C01", "C02", "C03", "C04", "C05", "C06", "C07", "C08", "C09", "C11", "C12", "C13", "C14", "C15", "C16", "C18", "C20"]:
     if _p not in CLAIMED:
         na(_p, _pending)
-na("C10", "quantifies over the numerical values of the transformation matrices (harmonicity, orthonormality, phases for every l<=10); "
-          "no clause is visible in the shape of the code - deciding it means computing the matrices, which is not static analysis")
-na("C17", "positive semi-definiteness and Schwarz inequalities are numerical consequences of exact integrals; no structural clause exists")
